@@ -35,6 +35,8 @@ func Generate(genseed uint64, stream string, thorough bool) *Case {
 	case "twin":
 		o.Twins = true
 		o.MinNodes = 4
+	case "twinreach":
+		o.MinNodes = 4
 	}
 	var g *dag.Graph
 	for {
@@ -54,10 +56,25 @@ func Generate(genseed uint64, stream string, thorough bool) *Case {
 	}
 	// (twins and Mount are not combined: the wrappers' Mount path takes no per-digest lock)
 	remoteMount := stream == "remote" && genseed%3 == 0
-	if stream != "twin" && stream != "mount" && stream != "sched" && !remoteMount && r.Chance(1, 4) {
+	wideRoot := -1
+	if stream == "contention" && genseed%3 != 0 {
+		wideRoot = addWideFan(r, g) // an index over 8..14 fresh image manifests: more runnable tasks than any K
+	}
+	var twinRoot, twinX int = -1, -1
+	twinTitled := false
+	if stream == "twinreach" {
+		twinTitled = genseed%2 == 0
+		for twinRoot < 0 {
+			twinRoot, twinX = addManifestTwin(r, g, twinTitled)
+			if twinRoot < 0 {
+				g = dag.Random(r, o)
+			}
+		}
+	}
+	if stream != "twin" && stream != "twinreach" && stream != "mount" && stream != "sched" && !remoteMount && r.Chance(1, 4) {
 		addBlobTwin(r, g)
 	}
-	c := &Case{Stream: stream, Graph: g.Encode(), MapRoot: -1, FailNode: -1, GenSeed: genseed, Seed: r.U64(), Thorough: thorough}
+	c := &Case{Stream: stream, Graph: g.Encode(), MapRoot: -1, FailNode: -1, PreTag: -1, GenSeed: genseed, Seed: r.U64(), Thorough: thorough}
 
 	var manifests, nonforeign []int
 	for _, n := range g.Nodes {
@@ -79,6 +96,8 @@ func Generate(genseed uint64, stream string, thorough bool) *Case {
 		return best
 	}
 	switch {
+	case stream == "contention" && wideRoot >= 0:
+		c.Root = wideRoot
 	case stream == "contention":
 		c.Root = bigRoot()
 	case len(manifests) > 0 && r.Chance(7, 10):
@@ -109,9 +128,10 @@ func Generate(genseed uint64, stream string, thorough bool) *Case {
 		}
 	}
 
-	c.K = common.Pick(r, []int{1, 2, 3, 8, 0, -1})
+	c.K = common.Pick(r, []int{1, 2, 3, 4, 5, 6, 8, 0, -1})
 	if stream == "contention" {
-		c.K = common.Pick(r, []int{1, 2, 2, 3})
+		c.K = common.Pick(r, []int{1, 2, 2, 3, 4, 5, 6, 7, 8, 0, -1})
+		c.Slow = r.Chance(2, 3)
 	}
 	c.Mode = common.Pick(r, []string{"g", "g", "t", "t", "r"})
 	c.Src = common.Pick(r, []string{"mem", "mem", "oci", "ocire", "file"})
@@ -157,6 +177,41 @@ func Generate(genseed uint64, stream string, thorough bool) *Case {
 	c.FindSucc = r.Chance(1, 3)
 
 	switch stream {
+	case "platimage":
+		// WithTargetPlatform on an image-manifest root: SelectManifest reads the manifest and its config
+		// blob from the source in the prologue (matching and non-matching platforms, wrong config type)
+		c.Mode = common.Pick(r, []string{"t", "r"})
+		c.Root = addPlatformImage(r, g)
+		c.Graph = g.Encode()
+		c.MapRoot, c.Mount = -1, false
+		c.Platform = common.Pick(r, arches)
+		c.PlatVar, c.PlatFeat = "", ""
+		if c.Src == "file" || c.Src == "remote" {
+			c.Src = "mem"
+		}
+	case "twinreach":
+		// F12 without pre-population: the bytes of a reachable manifest M also occur as a blob X that
+		// another reachable manifest lists as a layer; the destination starts empty (or with unrelated
+		// content).  Digest-keyed destinations (OCI layout; file store when X carries a title) answer
+		// Exists(M) = true once X is pushed -- in either probe order, decided by the schedule.  Memory
+		// and registry destinations are the control group.
+		c.Root = twinRoot
+		c.MapRoot, c.Platform, c.Mount, c.RefFetch = -1, "", false, r.Bool()
+		c.K = common.Pick(r, []int{1, 1, 2, 2, 3, 8, 0})
+		c.Slow = r.Chance(1, 4)
+		for k := range set {
+			delete(set, k)
+		}
+		if twinTitled {
+			c.Titled = []int{twinX}
+			c.Dst = common.Pick(r, []string{"file", "file", "oci", "mem"})
+			c.Src = common.Pick(r, []string{"mem", "oci", "ocire"}) // (a file source would want the same title on its copy of X)
+		} else {
+			c.Dst = common.Pick(r, []string{"oci", "oci", "ocire", "mem", "remote", "file"})
+		}
+		if c.Dst == "remote" && c.Mode == "t" {
+			c.Mode = "r"
+		}
 	case "extended":
 		// ExtendedCopyGraph / ExtendedCopy from a graph source (memory, OCI layout), callbacks nil or
 		// set.  The node is one with several roots above it (e.g. a subject with referrers, a shared
@@ -184,6 +239,25 @@ func Generate(genseed uint64, stream string, thorough bool) *Case {
 			c.Root = best
 		}
 		set = g.RandomClosedSubset(r, common.Pick(r, []int{0, 0, 10}))
+		if r.Chance(1, 4) { // a failing callback somewhere in the graphs that get copied
+			var ids []int
+			for _, rt := range g.Roots() {
+				if g.Reach(rt)[c.Root] {
+					for k := range g.Reach(rt) {
+						ids = append(ids, k)
+					}
+				}
+			}
+			sort.Ints(ids)
+			if len(ids) > 0 {
+				c.FailNode = common.Pick(r, ids)
+				if set[c.FailNode] {
+					c.FailCb = "skip"
+				} else {
+					c.FailCb = common.Pick(r, []string{"pre", "post"})
+				}
+			}
+		}
 	case "rootpresent":
 		// Copy whose root is already in the destination: {Tagger, ReferencePusher} x {OnCopySkipped nil, set}
 		c.Mode = common.Pick(r, []string{"t", "r"})
@@ -216,6 +290,25 @@ func Generate(genseed uint64, stream string, thorough bool) *Case {
 		c.Root = common.Pick(r, anc)
 		c.MapRoot, c.Platform = -1, ""
 		set = g.RandomClosedSubset(r, common.Pick(r, []int{0, 0, 10}))
+		if r.Chance(1, 4) { // a failing callback somewhere in the graphs that get copied
+			var ids []int
+			for _, rt := range g.Roots() {
+				if g.Reach(rt)[c.Root] {
+					for k := range g.Reach(rt) {
+						ids = append(ids, k)
+					}
+				}
+			}
+			sort.Ints(ids)
+			if len(ids) > 0 {
+				c.FailNode = common.Pick(r, ids)
+				if set[c.FailNode] {
+					c.FailCb = "skip"
+				} else {
+					c.FailCb = common.Pick(r, []string{"pre", "post"})
+				}
+			}
+		}
 		set[t] = true
 		// every twin blob of the graph is pre-populated (they are leaves, the set stays link-closed):
 		// a twin that is only reachable would be pushed during the copy and trigger the same defect
@@ -231,7 +324,24 @@ func Generate(genseed uint64, stream string, thorough bool) *Case {
 		// finding "mounted-root-untagged".
 		c.Mount = true
 		c.MapRoot, c.Platform = -1, ""
-		if c.Mode == "r" && !g.Nodes[c.Root].IsManifest() {
+		if r.Chance(1, 6) {
+			// a blob root whose mount always succeeds, into a ReferencePusher (or Tagger) + Mounter: OnMounted
+			// must tag it (fix 5ffcc20); nothing falls back, so the unmodelled failing path is not entered
+			var bl []int
+			for _, i := range nonforeign {
+				if !g.Nodes[i].IsManifest() && len(g.Nodes[i].Bytes) > 0 && !set[i] {
+					bl = append(bl, i)
+				}
+			}
+			if len(bl) > 0 {
+				c.Root = common.Pick(r, bl)
+				c.Mode = common.Pick(r, []string{"r", "r", "t"})
+				c.MountAlways = true
+				c.RefFetch = false
+				c.CbSet = "1111" + "1"
+			}
+		}
+		if c.Mode == "r" && !g.Nodes[c.Root].IsManifest() && !c.MountAlways {
 			if len(manifests) > 0 {
 				c.Root = common.Pick(r, manifests)
 			} else {
@@ -317,6 +427,17 @@ func Generate(genseed uint64, stream string, thorough bool) *Case {
 			c.FailCb = common.Pick(r, []string{"pre", "post"})
 		}
 	}
+	// the destination reference may exist already, pointing at some other pre-populated content
+	if (c.Mode == "t" || c.Mode == "r" || c.Mode == "X") && c.Dst != "remote" && len(set) > 0 && r.Chance(1, 3) {
+		var ids []int
+		for k := range set {
+			if c.Dst != "oci" && c.Dst != "ocire" || true {
+				ids = append(ids, k)
+			}
+		}
+		sort.Ints(ids)
+		c.PreTag = common.Pick(r, ids)
+	}
 	if c.FailCb != "" && !c.CbIsSet(c.FailCb) { // an injected failure needs its callback
 		bits := []byte(c.cbBits())
 		bits[map[string]int{"pre": 0, "post": 1, "skip": 2, "mounted": 3, "mountfrom": 4}[c.FailCb]] = '1'
@@ -401,6 +522,145 @@ func addBlobTwin(r *common.Rand, g *dag.Graph) {
 		nd.Bytes, nd.Desc = bs, desc(ix.MediaType, bs)
 		g.Nodes = append(g.Nodes, nd)
 	}
+}
+
+// addWideFan appends 8..14 image manifests, each over its own fresh layer blob and a shared config, and an
+// index over all of them; returns the index.
+func addWideFan(r *common.Rand, g *dag.Graph) int {
+	desc := func(mt string, bs []byte) ocispec.Descriptor {
+		return ocispec.Descriptor{MediaType: mt, Digest: digest.FromBytes(bs), Size: int64(len(bs))}
+	}
+	cb := []byte(fmt.Sprintf("wide-config-%x", r.U64()))
+	cfg := &dag.Node{ID: len(g.Nodes), Kind: dag.KConfig, Bytes: cb, Desc: desc(ocispec.MediaTypeImageConfig, cb), Subject: -1, TwinOf: -1}
+	g.Nodes = append(g.Nodes, cfg)
+	ix := ocispec.Index{MediaType: ocispec.MediaTypeImageIndex}
+	ix.SchemaVersion = 2
+	var members []int
+	for i, w := 0, 8+r.Intn(7); i < w; i++ {
+		lb := []byte(fmt.Sprintf("wide-layer-%d-%x", i, r.U64()))
+		l := &dag.Node{ID: len(g.Nodes), Kind: dag.KBlob, Bytes: lb, Desc: desc(ocispec.MediaTypeImageLayer, lb), Subject: -1, TwinOf: -1}
+		g.Nodes = append(g.Nodes, l)
+		m := ocispec.Manifest{MediaType: ocispec.MediaTypeImageManifest, Config: cfg.Desc, Layers: []ocispec.Descriptor{l.Desc}}
+		m.SchemaVersion = 2
+		bs, _ := json.Marshal(m)
+		im := &dag.Node{ID: len(g.Nodes), Kind: dag.KImage, Subject: -1, TwinOf: -1, Succ: []int{cfg.ID, l.ID}, Bytes: bs, Desc: desc(m.MediaType, bs)}
+		g.Nodes = append(g.Nodes, im)
+		members = append(members, im.ID)
+		ix.Manifests = append(ix.Manifests, im.Desc)
+	}
+	bs, _ := json.Marshal(ix)
+	rt := &dag.Node{ID: len(g.Nodes), Kind: dag.KIndex, Subject: -1, TwinOf: -1, Succ: members, Bytes: bs, Desc: desc(ix.MediaType, bs)}
+	g.Nodes = append(g.Nodes, rt)
+	return rt.ID
+}
+
+// addPlatformImage appends a config blob that is a valid image config (architecture / os), mostly of the
+// image-config media type, and an image manifest over it; returns the manifest.
+func addPlatformImage(r *common.Rand, g *dag.Graph) int {
+	desc := func(mt string, bs []byte) ocispec.Descriptor {
+		return ocispec.Descriptor{MediaType: mt, Digest: digest.FromBytes(bs), Size: int64(len(bs))}
+	}
+	var blobs []int
+	for _, n := range g.Nodes {
+		if !n.IsManifest() && !n.Foreign() && len(n.Bytes) > 0 {
+			blobs = append(blobs, n.ID)
+		}
+	}
+	cb := []byte(fmt.Sprintf(`{"architecture":%q,"os":"linux","verif":"%d-%x"}`, common.Pick(r, arches), len(g.Nodes), r.U64()))
+	mt := ocispec.MediaTypeImageConfig
+	if r.Chance(1, 6) {
+		mt = "application/vnd.verif.config.v1+json" // SelectManifest refuses: ErrUnsupported
+	}
+	cfg := &dag.Node{ID: len(g.Nodes), Kind: dag.KConfig, Bytes: cb, Desc: desc(mt, cb), Subject: -1, TwinOf: -1}
+	g.Nodes = append(g.Nodes, cfg)
+	m := ocispec.Manifest{MediaType: ocispec.MediaTypeImageManifest, Config: cfg.Desc, Layers: []ocispec.Descriptor{}}
+	m.SchemaVersion = 2
+	im := &dag.Node{ID: len(g.Nodes), Kind: dag.KImage, Subject: -1, TwinOf: -1, Succ: []int{cfg.ID}}
+	for i := 0; i < r.Intn(3) && len(blobs) > 0; i++ {
+		l := g.Nodes[common.Pick(r, blobs)]
+		m.Layers = append(m.Layers, l.Desc)
+		im.Succ = append(im.Succ, l.ID)
+	}
+	bs, _ := json.Marshal(m)
+	im.Bytes, im.Desc = bs, desc(m.MediaType, bs)
+	g.Nodes = append(g.Nodes, im)
+	return im.ID
+}
+
+// addManifestTwin appends X = the bytes of an existing manifest M (one with a non-foreign successor)
+// as application/octet-stream, an image manifest A with X as a layer (its descriptor titled when
+// titled is set) and an index R over A and M in either order.  Returns (R, X), or (-1, -1) when the
+// graph has no suitable manifest.
+func addManifestTwin(r *common.Rand, g *dag.Graph, titled bool) (int, int) {
+	var cands, blobs []int
+	for _, n := range g.Nodes {
+		if n.IsManifest() {
+			for _, s := range n.Succ {
+				if !g.Nodes[s].Foreign() {
+					cands = append(cands, n.ID)
+					break
+				}
+			}
+		} else if !n.Foreign() && len(n.Bytes) > 0 {
+			blobs = append(blobs, n.ID)
+		}
+	}
+	if len(cands) == 0 || len(blobs) == 0 {
+		return -1, -1
+	}
+	desc := func(mt string, bs []byte) ocispec.Descriptor {
+		return ocispec.Descriptor{MediaType: mt, Digest: digest.FromBytes(bs), Size: int64(len(bs))}
+	}
+	m := g.Nodes[common.Pick(r, cands)]
+	x := &dag.Node{ID: len(g.Nodes), Kind: dag.KBlob, Bytes: m.Bytes, Desc: desc("application/octet-stream", m.Bytes), Subject: -1, TwinOf: m.ID}
+	g.Nodes = append(g.Nodes, x)
+	cfg := g.Nodes[common.Pick(r, blobs)]
+	am := ocispec.Manifest{MediaType: ocispec.MediaTypeImageManifest, Config: cfg.Desc}
+	am.SchemaVersion = 2
+	xd := x.Desc
+	if titled {
+		xd.Annotations = map[string]string{ocispec.AnnotationTitle: fmt.Sprintf("x-%d.bin", x.ID)}
+	}
+	a := &dag.Node{ID: len(g.Nodes), Kind: dag.KImage, Subject: -1, TwinOf: -1, Succ: []int{cfg.ID, x.ID}}
+	am.Layers = []ocispec.Descriptor{xd}
+	if r.Bool() {
+		l := g.Nodes[common.Pick(r, blobs)]
+		am.Layers = append(am.Layers, l.Desc)
+		a.Succ = append(a.Succ, l.ID)
+	}
+	am.Annotations = map[string]string{"verif.twinreach": fmt.Sprint(r.U64())}
+	a.Annotations = am.Annotations
+	bs, _ := json.Marshal(am)
+	a.Bytes, a.Desc = bs, desc(am.MediaType, bs)
+	g.Nodes = append(g.Nodes, a)
+	ix := ocispec.Index{MediaType: ocispec.MediaTypeImageIndex}
+	ix.SchemaVersion = 2
+	// M is wrapped in 0..2 further indexes: the deeper it sits, the later it is probed, so both orders
+	// (M probed before / after X was pushed) occur
+	top := m.ID
+	for d := r.Intn(3); d > 0; d-- {
+		wx := ocispec.Index{MediaType: ocispec.MediaTypeImageIndex, Manifests: []ocispec.Descriptor{g.Nodes[top].Desc}}
+		wx.SchemaVersion = 2
+		wx.Annotations = map[string]string{"verif.wrap": fmt.Sprint(d, r.U64())}
+		w := &dag.Node{ID: len(g.Nodes), Kind: dag.KIndex, Subject: -1, TwinOf: -1, Succ: []int{top}, Annotations: wx.Annotations}
+		wb, _ := json.Marshal(wx)
+		w.Bytes, w.Desc = wb, desc(wx.MediaType, wb)
+		g.Nodes = append(g.Nodes, w)
+		top = w.ID
+	}
+	members := []int{a.ID, top}
+	if r.Bool() {
+		members = []int{top, a.ID}
+	}
+	rt := &dag.Node{ID: len(g.Nodes), Kind: dag.KIndex, Subject: -1, TwinOf: -1}
+	for _, mm := range members {
+		ix.Manifests = append(ix.Manifests, g.Nodes[mm].Desc)
+		rt.Succ = append(rt.Succ, mm)
+	}
+	bs, _ = json.Marshal(ix)
+	rt.Bytes, rt.Desc = bs, desc(ix.MediaType, bs)
+	g.Nodes = append(g.Nodes, rt)
+	return rt.ID, x.ID
 }
 
 // FromReplay rebuilds the cases of a replay file: either {"case": <Case JSON>} or
